@@ -11,6 +11,7 @@ CONSTANTS
   ContentsC = {"mix", "min"}
   FlagsC = {TRUE}
   AbsC = {FALSE}
+  PicC = {"png"}
   KeepC = {"only"}
   LastC = {}
   Design = "unused"
